@@ -34,9 +34,9 @@ class Stepper:
         from comb_spec_searcher.class_db import ClassDB
 
         self.ctx = ctx
-        self.compressed = int(config.get("compressed") or 0)  # 0 plain, 1 all compressed, 2 mixed, 3 colliding hashes
+        self.compressed = int(config.get("compressed") or 0)  # 0 plain, 1 all compressed, 2 mixed, 3 colliding hashes, 6 compressed with colliding hashes
         self.pool = config["pool"]
-        self.cls_type = {0: U.WC, 1: U.WCB, 2: U.WCM, 3: U.WCH}[self.compressed]
+        self.cls_type = {0: U.WC, 1: U.WCB, 2: U.WCM, 3: U.WCH, 6: U.WCHB}[self.compressed]
         self.db = ClassDB(self.cls_type)
         self.model = {}  # class -> label
         self.order = []  # label -> class
@@ -79,7 +79,7 @@ class Stepper:
             if c not in self.model:  # documented: looking a class up adds it
                 self.model[c] = len(self.order)
                 self.order.append(c)
-            if self.compressed in (1, 2):
+            if self.compressed in (1, 2, 6):
                 self.saw_roundtrip = True
         elif name == "contains_class":
             c = self.mk(op[1])
@@ -147,7 +147,7 @@ class Stepper:
             return
         if issued:
             ctx.check(got == self.order[l], "get_class-label", f"get_class({l}) = {got!r}, stored {self.order[l]!r}")
-            if self.compressed in (1, 2):
+            if self.compressed in (1, 2, 6):
                 self.saw_roundtrip = True
         else:
             ctx.fail("get_class-unissued", f"get_class({l}) returned {got!r} although only labels 0..{len(self.order)-1} were issued", "get_class/unissued-label")
@@ -188,7 +188,7 @@ class Stepper:
             ctx.check(labels == list(range(len(self.order))), "iter", f"labels iterate as {labels}, expected 0..{len(self.order)-1}")
         self._contains_label(len(self.order))
         self._contains_label(-1)
-        collide = self.compressed == 3 and len({hash(c) for c in self.order}) < len(self.order)
+        collide = self.compressed in (3, 6) and len({hash(c) for c in self.order}) < len(self.order)
         ctx.nontrivial = self.saw_unknown_lookup or self.saw_roundtrip or collide
         if collide:
             ctx.label("colliding-hashes")
@@ -208,7 +208,7 @@ def _machine(tier):
         config=st.fixed_dictionaries(
             {
                 "pool": st.lists(gen.class_desc(tier=tier), min_size=2, max_size=8),
-                "compressed": st.sampled_from([0, 1, 1, 2, 2, 3, 3]),
+                "compressed": st.sampled_from([0, 1, 1, 2, 2, 3, 3, 6, 6]),
             }
         ),
         ops={
